@@ -76,9 +76,8 @@ structure St where
   lastDisk : Option String := none
   /-- non-prunable backend (`prunable == false`) -/
   np : Bool := false
-  /-- `LeafSet::snapshot`: the bitmap written to the side file, and the reference unspent set then -/
-  snap : Bitmap := []
-  snapRef : List Nat := []
+  /-- `LeafSet::snapshot` per header tag: the bitmap written to the side file, and the reference unspent set then -/
+  snaps : List (String × Bitmap × List Nat) := []
 
 def showPl (pl : PruneList) : String :=
   s!"{showNatList pl.bitmap} {showNatList pl.shiftCache} {showNatList pl.leafShiftCache}"
@@ -253,10 +252,13 @@ def handle (st : St) (args : List String) (impl : String) : St × Verdict :=
       let spec := (st.ref.unspent.filter (· ≥ insertionToPmmrIndex i)).map fun p => nLeaves (p + 1) - 1
       (st, cmp2 (showNatList spec) (showNatList (st.pm.b.leafIdxIter i)) impl)
     | none => (st, .unknown)
-  | ["snapshot"] => ({ st with snap := st.pm.b.snapshot, snapRef := st.ref.unspent }, cmpModel "ok" impl)
-  | ["reopen_snap"] =>
-    ({ st with pm := { st.pm with b := st.pm.b.reopenWithSnapshot el st.snap },
-               ref := { st.ref with unspent := st.snapRef } }, cmpModel "ok" impl)
+  | ["snapshot", tag] =>
+    ({ st with snaps := (tag, st.pm.b.snapshot, st.ref.unspent) :: st.snaps }, cmpModel "ok" impl)
+  | ["reopen_snap", tag] => match st.snaps.find? (·.1 == tag) with
+    | some (_, bm, ru) =>
+      ({ st with pm := { st.pm with b := st.pm.b.reopenWithSnapshot el bm },
+                 ref := { st.ref with unspent := ru } }, cmpModel "ok" impl)
+    | none => (st, .unknown)
   | ["push", e] => match parseHex e with
     | none => (st, .unknown)
     | some e =>
